@@ -330,9 +330,11 @@ func (handle *writeTxnHandle) Abort() {
 		}
 	}
 
+	verifPoint("abort.beforeUnlock", txn.handle)
 	txn.duration.Store(uint64(time.Since(txn.acquiredAt)))
 
 	txn.smus.Unlock()
+	verifPoint("abort.afterUnlock", txn.handle)
 	txn.db.metrics.WriteTxnDuration(
 		txn.handle,
 		txn.tableNames,
@@ -394,10 +396,13 @@ func (handle *writeTxnHandle) Commit() ReadTxn {
 		db.metrics.Revision(name, table.revision)
 	}
 
+	verifPoint("commit.beforeRootLock", txn.handle)
+
 	// Acquire the lock on the root tree to sequence the updates to it. We can acquire
 	// it after we've built up the new table entries above, since changes to those were
 	// protected by each table lock (that we're holding here).
 	db.mu.Lock()
+	verifPoint("commit.rootLocked", txn.handle)
 
 	// Since the root may have changed since the pointer was last read in WriteTxn(),
 	// load it again and modify the latest version that we now have immobilised by
@@ -433,20 +438,24 @@ func (handle *writeTxnHandle) Commit() ReadTxn {
 	// atomically store it.
 	db.root.Store(&root)
 	db.mu.Unlock()
+	verifPoint("commit.afterRootStore", txn.handle)
 
 	// Now that new root is committed, we can notify readers by closing the watch channels of
 	// mutated radix tree nodes in all changed indexes and on the root itself.
 	for _, txn := range txnToNotify {
 		txn.notify()
 	}
+	verifPoint("commit.afterNotify", txn.handle)
 
 	// With the root pointer updated, we can now release the tables for the next write transaction.
 	txn.smus.Unlock()
+	verifPoint("commit.afterUnlock", txn.handle)
 
 	// Notify table initializations
 	for _, ch := range initChansToClose {
 		close(ch)
 	}
+	verifPoint("commit.afterInitNotify", txn.handle)
 
 	txn.db.metrics.WriteTxnDuration(
 		txn.handle,
